@@ -20,7 +20,7 @@ ASSUMPTIONS = [
     "distance is judged as computed in float64 (|g - v| rounded); an exactly-nearest element is always accepted",
     "values are finite; grids are sorted ascending",
 ]
-REQUIRED_COUNTERS = {"arrays_of_k_times_65536_plus_1_values": 8, "concurrent_snap_rounds": 15, "extra_values_write_protected": 50, "extra_values_zero_stride_broadcast": 50, "extra_values_as_list": 50, "extra_values_empty": 50, "extra_consecutive_integer_grid_around_zero": 50, "extra_errstate_all_raise": 50, "extra_digitize_fortran_order": 50, "extra_digitize_write_protected": 50, "extra_linspace_grid": 50, "extra_integer_values": 50, "extra_values_2d": 50, "extra_values_fortran_order": 50, "extra_values_transposed_view": 50, "extra_grid_near_float_max": 50, "extra_gaps_above_1e154": 50, "extra_earlier_results_rechecked": 50, "large_arrays": 20, "digitize_same_endpoint_families": 30, "values_checked": 1000, "midpoint_probes": 50, "outside_probes": 50, "digitize_columns": 10}
+REQUIRED_COUNTERS = {"arrays_of_k_times_65536_plus_1_values": 8, "concurrent_snap_rounds": 15, "extra_values_write_protected": 50, "extra_values_zero_stride_broadcast": 50, "extra_values_empty": 50, "extra_consecutive_integer_grid_around_zero": 50, "extra_errstate_all_raise": 50, "extra_digitize_fortran_order": 50, "extra_digitize_write_protected": 50, "extra_linspace_grid": 50, "extra_integer_values": 50, "extra_values_2d": 50, "extra_values_fortran_order": 50, "extra_values_transposed_view": 50, "extra_grid_near_float_max": 50, "extra_gaps_above_1e154": 50, "extra_earlier_results_rechecked": 50, "large_arrays": 20, "digitize_same_endpoint_families": 30, "values_checked": 1000, "midpoint_probes": 50, "outside_probes": 50, "digitize_columns": 10}
 SHARDS = {"quick": 8, "thorough": 16}
 
 
@@ -181,13 +181,11 @@ def extras(rng, out, get_closest, digitize_data):
     run("values_transposed_view", gi, a2.T)
     run("values_permuted_axes_3d", gi, np.transpose(v3[:k3].reshape(2, -1, 3), (2, 0, 1)))
     run("values_reversed_strided_view", gi, a2[::-1, ::2])
-    # ... nor on who owns the memory: write-protected values, one vector repeated with zero strides, plain lists and tuples
+    # ... nor on who owns the memory: write-protected values, one vector repeated with zero strides
     ro = np.array(v3[:k3], copy=True)
     ro.setflags(write=False)
     run("values_write_protected", gi, ro)
     run("values_zero_stride_broadcast", gi, np.broadcast_to(v3[:6], (5, 6)))
-    run("values_as_list", gi, [float(x) for x in v3[:20]])
-    run("values_as_tuple", gi, tuple(float(x) for x in v3[:20]))
     run("values_empty", gi, np.zeros(0))
     run("values_empty_2d", gi, np.zeros((0, 3)))
     # a grid of consecutive integers around zero with NEGATIVE non-integer values (truncation is not rounding down)
